@@ -916,7 +916,18 @@ class Machine:
             proj, pd = ref.project(proj, pd, pn.index(m), outcomes[m])
             pn = [x for x in pn if x != m]
         born = float(np.real(np.trace(proj))) if proj.size else 1.0
-        if abs(lib_prob - born) > 1e-8:
+        # documented purity tolerance (1e-6) of contract(): a nearly pure density matrix may be replaced by its
+        # dominant eigenvector between two draws of one call; the conditional probabilities of the later draws
+        # then move by about the purity deficit of the block (same slack as for states, see contraction_slack)
+        born_slack = 0.0
+        if len([r_ for r_ in log if r_["p"] is not None]) > 1:
+            for bi_ in {pre.where[m_] for m_ in mset if m_ in pre.where}:
+                b_ = pre.blocks[bi_]
+                if b_.rep == "matrix":
+                    deficit = 1.0 - ref.purity(unit(b_.rho()))
+                    if 1e-15 < deficit < 1e-5:
+                        born_slack += 2.0 * deficit
+        if abs(lib_prob - born) > 1e-8 + born_slack:
             raise Tagged(["C04"], "born", f"measure via {entry} of {sorted(mset)} (storage {site['storages']}/{site['reps']}): outcome {outcomes} was drawn with probability {lib_prob:.9f}, Born rule gives {born:.9f}",
                          dict(site, what="probability"))
         if born <= 1e-10:
